@@ -204,7 +204,7 @@ def _stats_after(T: ByteVec, st: dict):
 
 def new_stats():
     return {"aligned": 0, "split_sym": 0, "nested": 0, "overlap": 0, "fork": 0, "value_use": 0, "sym": 0,
-            "write_after_fork": 0, "write_after_value_use": 0, "value_use_aligned": 0}
+            "write_after_fork": 0, "write_after_value_use": 0, "value_use_aligned": 0, "read_barrier": 0}
 
 
 def valid(ops) -> bool:
@@ -254,6 +254,19 @@ def run_history(dom, init: str, ops, state_cls=None):
                     env["B"], refs["B"] = v, list(rb)
                 else:
                     raise HarnessBug(op)
+                continue
+            if k == "rd":
+                # read barrier: observable reads in the middle of a history (results are discarded here; a read must not
+                # change what later reads return -- e.g. through a stale memo)
+                V = env[op[1]]
+                if V is not None:
+                    for fn in (lambda: V.unwrap(), lambda: len(V), lambda: V.get_word(0), lambda: V.slice(1, 34).unwrap(),
+                               lambda: V.get_byte(33)):
+                        try:
+                            fn()
+                        except Exception:
+                            pass
+                    st["read_barrier"] = st.get("read_barrier", 0) + 1
                 continue
             tgt = op[1]
             oth = "B" if tgt == "A" else "A"
@@ -499,6 +512,7 @@ def _alphabet(level: str):
         ops += [("sv", "A", 32), ("av", "A"), ("sv", "B", 0)]
         ops += [("sb", "B", 0, "s"), ("sb", "B", 33, "c"), ("sw", "B", 1, "s"), ("ss", "B", 32, 32, "v"),
                 ("mc", "B", 1, 0, 32)]
+        ops += [("rd", "A"), ("sb", "A", 33, "c")]
         return ops
     if level == "medium":
         boff = [0, 1, 31, 32, 33, 64, 65, 97]
@@ -528,6 +542,7 @@ def _alphabet(level: str):
         ops += [("sb", "B", 0, "s"), ("sb", "B", 33, "c"), ("sw", "B", 0, "s"),
                 ("sw", "B", 1, "s"), ("ss", "B", 32, 32, "v"), ("ss", "B", 0, 32, "w"),
                 ("ss", "B", 1, 2, "s"), ("mc", "B", 1, 0, 32), ("ap", "B", "s")]
+        ops += [("rd", "A"), ("rd", "B")]
         return ops
     if level == "full":
         grid = [0, 1, 2, 4, 5, 6, 31, 32, 33, 34, 63, 64, 65, 95, 96, 97, 128, 129]
